@@ -21,6 +21,9 @@ K_CANONPOS = ("when the failing action is not the last action of a query typed i
               "the failing action within the named query")
 K_RESOURCE = ("a missing store key ('-R/missing.txt', '-R/missing.txt/-/ident') yields an error state whose failure record has no query and no position "
               "(Context.evaluate_resource logs through State.log_exception without position/query; State.get raises with query None, Position())")
+K_NODATA = ("a resource key that exists WITHOUT data - an entry with metadata only ('-R/nodata/x.txt'), a directory ('-R/filled') - yields a normal-looking "
+            "state (is_error False, get() returns None) and the commands to its right run on None: Context.evaluate_resource reports these cases through "
+            "state.error(...), a method State does not have; the AttributeError is swallowed by the bare except, which marks the context, not the state")
 K_EENOLOG = ("a command that fails with an EvaluationException (sub(): context.evaluate(q).get() of a sub-query whose link argument fails) is not "
              "logged - Context.evaluate_action (context.py:716-720) only sets state.exception, which State.next_state() drops as soon as another "
              "action or a file name follows: the returned error state has no error entry, state.get() raises with query None and no position")
@@ -33,12 +36,26 @@ FAILING = [
     "cat-a-b-c", "add-~X~/one/fail~E", "coll-a-~X~/nosuch~E-b", "add-~X~/num-x~E", "add-~X~/one/req~E", "add-~X~/one/add-1-2~E", "add-~X~fail~E",
     "coll-~X~ident~E-~X~nosuch~E", "add-~X~/one/add-1/fail/add-2~E", "add-~X~add-1/fail/add-2~E",
     "add-~X~/one/add-~X~/one/fail~E~E", "add-~X~add-~X~fail~E~E", "add-~X~/one/add-~X~fail~E~E", "add-~X~add-~X~/nosuch~E~E", "coll-~X~/one~E-~X~/one/add-~X~/num-x~E~E",
-    "sub-" + E("one/fail"), "sub-" + E("one/add-~X~/nosuch~E"), "cat-~X~/-R/missing.txt~E",
+    "sub-" + E("one/fail"), "sub-" + E("one/add-~X~/nosuch~E"), "cat-~X~/-R/missing.txt~E", "cat-~X~/-R/nodata/x.txt~E",
 ]
 FAILING3 = ["add-~X~/one/add-~X~/one/add-~X~/one/fail~E~E~E", "add-~X~add-~X~add-~X~fail~E~E~E", "add-~X~/one/add-~X~add-~X~/nosuch~E~E~E",
             "add-~X~add-~X~/one/add-~X~/one/req~E~E~E"]
 SUFFIXES = [[], ["add-1"], ["ident", "coll-a"], ["let-w-z", "ident", "add-1"], ["x.txt"], ["add-~X~/num-3~E"], ["coll-~X~ident~E"]]
-RESOURCE_QUERIES = ["-R/missing.txt", "-R/missing.txt/-/ident", "-R/missing.txt/-/ident/add-1", "-R/dir/missing.txt/-/coll-a/x.txt"]
+RESOURCE_QUERIES = ["-R/missing.txt", "-R/missing.txt/-/ident", "-R/missing.txt/-/ident/add-1", "-R/dir/missing.txt/-/coll-a/x.txt",
+                    # keys that exist without data (see populate_store): metadata only, a directory
+                    "-R/nodata/x.txt", "-R/nodata/x.txt/-/ident", "-R/nodata/x.txt/-/ident/add-1", "-R/filled", "-R/filled/-/ident"]
+
+
+def populate_store():
+    """the store of the vocabulary is empty; two keys exist without data: an entry with metadata only, and a directory"""
+    import liquer.store as LSTORE
+    st = LSTORE.get_store()
+    st.store_metadata("nodata/x.txt", dict(note="metadata only"))
+    st.store("filled/y.txt", b"1", {})
+
+
+def is_nodata(raw):
+    return "-R/nodata/x.txt" in raw or "-R/filled" in raw
 
 
 def consistent(rq, off, raw, ref):
@@ -64,6 +81,8 @@ def consistent(rq, off, raw, ref):
 
 
 def classify(raw, ref, rq, off, obs=None):
+    if is_nodata(raw) and obs is not None and M.Counter_surplus(obs.calls, ref.calls):
+        return K_NODATA         # the link went through with None; what is reported is the failure of a later command
     if rq is None and "-R/" in raw.split("~X~")[0]:
         return K_RESOURCE
     if (rq is None and obs is not None and obs.state is not None and len(ref.fail_path) > 1 and ref.fail_path[0]["kind"] == "raise"
@@ -105,7 +124,8 @@ def check(col, raw, cache_name, cache):
     col.evaluations += 1
     w = dict(query=raw, cache=cache_name)
     if obs.ok:
-        col.add(CONTRACT, "Context.evaluate", problem="a normal-looking result is returned", observed=obs.brief(), expected=None if ref is None else ref.brief(), **w)
+        col.add(CONTRACT, "Context.evaluate", known=K_NODATA if is_nodata(raw) else None, problem="a normal-looking result is returned", observed=obs.brief(),
+                expected=None if ref is None else ref.brief(), **w)
         return
     if obs.state is not None:
         if not obs.state.metadata.get("is_error") or not getattr(obs, "get_raised", False):
@@ -113,14 +133,15 @@ def check(col, raw, cache_name, cache):
     if ref is not None:
         extra = M.Counter_surplus(obs.calls, ref.calls)
         if extra:
-            col.add(CONTRACT, "Context.evaluate", problem="a command right of the failing step was executed", executed=obs.calls, reference_executes=ref.calls,
-                    surplus=extra, **w)
+            col.add(CONTRACT, "Context.evaluate", known=K_NODATA if is_nodata(raw) else None, problem="a command right of the failing step was executed",
+                    executed=obs.calls, reference_executes=ref.calls, surplus=extra, **w)
     elif obs.calls:
-        col.add(CONTRACT, "Context.evaluate", problem="a command right of the failing (missing resource) step was executed", executed=obs.calls, **w)
+        col.add(CONTRACT, "Context.evaluate", known=K_NODATA if is_nodata(raw) else None,
+                problem="a command right of the failing (missing resource) step was executed", executed=obs.calls, **w)
     how, rq, off = report_of(obs)
     if is_resource:
         ok = rq is not None and off == 0 and (rq == raw or raw.startswith(rq))
-        known = K_RESOURCE if rq is None else None
+        known = K_RESOURCE if rq is None else (K_NODATA if (is_nodata(raw) and obs.calls) else None)      # a later command failed on the None it was given
     else:
         ok = consistent(rq, off, raw, ref)
         known = None if ok else classify(raw, ref, rq, off, obs)
@@ -154,6 +175,7 @@ def queries(tier):
 def bounded(tier, seed):
     t0 = time.time()
     M.setup_vocabulary()
+    populate_store()
     col = M.Collector()
     qs = queries(tier)
     for q in qs:
@@ -195,6 +217,7 @@ def replay(doc):
     except Exception as e:
         return dict(confirmed=False, note="query does not parse: %s" % e)
     M.setup_vocabulary()
+    populate_store()
     col = M.Collector()
     check(col, q, "NoCache", None)
     check(col, q, "MemoryCache", MemoryCache())
